@@ -62,7 +62,16 @@ func (ValidatorActorsAreProtected) Validate(_ context.Context, _ *types.State, l
 			})
 		}
 		nonMeasured := actorRefs.Exclude(prevMeasured...)
-		if len(nonMeasured) == 0 {
+		// Exclude passes references without a counterpart through as they are,
+		// including zero-length ranges: look for a byte, not for a reference.
+		hasNonMeasuredBytes := false
+		for _, r := range nonMeasured.Ranges() {
+			if r.Length != 0 {
+				hasNonMeasuredBytes = true
+				break
+			}
+		}
+		if !hasNonMeasuredBytes {
 			continue
 		}
 
